@@ -1,5 +1,6 @@
 import Martian.Refactor
 import Martian.RefactorGraph
+import Martian.RefactorGraphD
 import Driver.Util
 
 /-! Line-protocol handler for property C19.
@@ -377,6 +378,43 @@ def showNode (n : Node) : String :=
 def showGraph (g : List Node) : String :=
   if g.isEmpty then "-" else " ; ".intercalate (g.map showNode)
 
+
+/-! ## resolved call graph with `disabled` modifiers (Martian/RefactorGraphD.lean)
+
+`C19.graphd <prog> <types>` → like `C19.graph`, with `( D control value )` for a value
+that is null when `control` is true, and a fourth list per node: the resolved
+expressions which could disable it.  `same=` tells whether `deepGraphD` is the
+embedding of `deepGraph` (expected on programs without `disabled` modifiers). -/
+
+mutual
+  partial def showD : DExp → String
+    | .lit h => join ["(", "L", h, ")"]
+    | .sref fq c path => join (["(", "R", fqStr fq, dash c] ++ path ++ [")"])
+    | .split e => join ["(", "X", showD e, ")"]
+    | .arr es => join (["(", "A"] ++ showDElems es ++ [")"])
+    | .map false es => join (["(", "M"] ++ showDEntries es ++ [")"])
+    | .map true es => join (["(", "T"] ++ showDEntries es ++ [")"])
+    | .dis d v => join ["(", "D", showD d, showD v, ")"]
+    | .nil => "?nil"
+    | .cons _ _ _ => "?cons"
+  partial def showDElems : DExp → List String
+    | .cons _ h t => showD h :: showDElems t
+    | _ => []
+  partial def entriesOfD : DExp → List (String × String)
+    | .cons k h t => (k, showD h) :: entriesOfD t
+    | _ => []
+  partial def showDEntries (es : DExp) : List String :=
+    ((entriesOfD es).mergeSort (fun a b => a.1 ≤ b.1)).map fun e => join ["(", dash e.1, e.2, ")"]
+end
+
+def showDNode (n : DNode) : String :=
+  let ins := (n.inputs.mergeSort (fun a b => a.1 ≤ b.1)).map fun e => join ["(", e.1, showD e.2, ")"]
+  join ["(", "N", fqStr n.fqid, dash n.callable, if n.isPipe then "P" else "S", showList ins,
+        showD n.outputs, showList (n.retained.map showD), showList (n.disable.map showD), ")"]
+
+def showGraphD (g : List DNode) : String :=
+  if g.isEmpty then "-" else " ; ".intercalate (g.map showDNode)
+
 def handle (op : String) (args : List String) : Option String :=
   match op, args with
   | "ping", _ => some "pong"
@@ -393,7 +431,23 @@ def handle (op : String) (args : List String) : Option String :=
     | "removeInput" =>
       let pairs := removeInputClosure p (closureFuel p) [(x, a)] []
       let hyp := (p.find? x).isSome && RemInsOK pairs p
-      some s!"hyp={hyp} same={decide (deepGraph (ti.removeInputs pairs) (removeInput x a p) = pairs.foldl (fun g xq => g.map (remNodeIn xq.1 xq.2)) (deepGraph ti p))}"
+      -- the derived form: structural well-formedness + the seed condition imply `RemInsOK`
+      let hyp2 := (p.find? x).isSome && StructOK p && seedOK x a p
+      some s!"hyp={hyp} same={decide (deepGraph (ti.removeInputs pairs) (removeInput x a p) = pairs.foldl (fun g xq => g.map (remNodeIn xq.1 xq.2)) (deepGraph ti p))} derived={hyp2} implies={!hyp2 || hyp}"
+    | "removeOutput" =>
+      some s!"hyp={RemOutOK x a ti p} same={decide (deepGraph (ti.removeOutput x a) (outStep x a p) = (deepGraph ti p).map (remNodeOut x a))}"
+    | "removeCalls" =>
+      -- one pass of removeUnusedCalls and the loop, at the unfolding budget of the program
+      let plan := unusedCallPlan p
+      let n := graphFuel p
+      let lhs := deepGraphAt n n (ti.removeInputs plan.2) (removeInputs plan.2 (applyCallRemovals plan.1 p))
+      let rhs := plan.2.foldl (fun g xq => g.map (remNodeIn xq.1 xq.2)) (deepGraphKeepAt (keepOf plan.1) n n ti p)
+      let after := deepGraphAt n n TypeInfo.empty (removeUnused true [] p)
+      let before := deepGraphAt n n TypeInfo.empty p
+      let le := after.all fun n' => before.any fun m =>
+        n'.fqid == m.fqid && n'.callable == m.callable && n'.isPipe == m.isPipe && decide (n'.outputs = m.outputs)
+          && decide (n'.retained = m.retained) && n'.inputs.all (fun kv => m.inputs.contains kv)
+      some s!"hyp={StructOK p} same={decide (lhs = rhs) && le} removed={plan.1.length}"
     | "renameCallable" =>
       let hyp := WF p && FreshFor x b p && (p.find? x).isSome && RenCallOK x b ti (eraseIds p)
       some s!"hyp={hyp} same={decide (deepGraph (ti.renameCallable x b) (eraseIds (renameCallable x b p)) = (deepGraph ti (eraseIds p)).map (renNodeCallable x b))}"
@@ -409,7 +463,19 @@ def handle (op : String) (args : List String) : Option String :=
     | "removeInput" =>
       let pairs := removeInputClosure p (closureFuel p) [(x, a)] []
       some (showGraph (pairs.foldl (fun g xq => g.map (remNodeIn xq.1 xq.2)) (deepGraph ti p)))
+    | "removeOutput" =>
+      -- removeOutputPlain: the parameter, then the cascade of the inputs it leaves unbound
+      let pairs := match p.find? x with
+        | some xc => if xc.isPipe then removeInputClosure p (closureFuel p) ((unboundInputs p xc [a] []).map (fun i => (x, i))) [] else []
+        | none => []
+      some (showGraph (pairs.foldl (fun g xq => g.map (remNodeIn xq.1 xq.2)) ((deepGraph ti p).map (remNodeOut x a))))
     | _ => none
+  | "graphd", [prog, types] => do
+    let p0 ← pProgram (prog.splitOn " ") []
+    let p := decodeProgram p0
+    let ti ← pTypes types
+    let g := deepGraphD ti p
+    some (s!"same={decide (g = (deepGraph ti p).map Node.toD)} " ++ showGraphD g)
   | "graph", [prog, types] => do
     let p ← pProgram (prog.splitOn " ") []
     let ti ← pTypes types
